@@ -35,7 +35,8 @@ class _FileStreamBase(object):
     def close(self):
         self._file.close()
 
-    def write_data(self, data):
+    def format_data(self, data):
+        """The text that write_data() writes for *data*."""
         # data to write on file
         file_data = to_str(data['data'])
 
@@ -50,6 +51,10 @@ class _FileStreamBase(object):
             file_data = prefix + file_data.rstrip('\n')
             file_data = file_data.replace('\n', '\n' + prefix)
             file_data += '\n'
+        return file_data
+
+    def write_data(self, data):
+        file_data = self.format_data(data)
 
         # writing into the file
         try:
@@ -102,7 +107,9 @@ class FileStream(_FileStreamBase):
         self._backup_count = int(backup_count)
 
     def __call__(self, data):
-        if self._should_rollover(data['data']):
+        # what counts against max_bytes is what is going to be written:
+        # with a time_format every line carries a prefix
+        if self._should_rollover(self.format_data(data)):
             self._do_rollover()
 
         self.write_data(data)
